@@ -55,6 +55,10 @@ def make_pool(rng, kbpk):
     pool["load_overlap"] = [("L", "B0000P0TE00N0200KS04KC04"), ("L", "B0000P0TE00N0200TS04KS05x"), ("L", "D0000P0TE00N0300KC05yTS04KS04"),
                             ("L", "A0000P0TE00N0100TS06zz")]
     pool["set_kbpk"] = [("K", kbpk), ("K", rng.randbytes(len(kbpk))), ("K", kbpk)]
+    # headers whose fields fall into different character classes (digits / upper / lower), reserved field included:
+    # a field taken over only for some class of value would keep the previous object's value for the others
+    pool["load_classes"] = [("L", "B0000P0TE00N0042"), ("L", "A0000P0TE00N00ZZ"), ("L", "B000077D707E0007"), ("L", "D0000k1ax01s00r7"),
+                            ("L", "C0000M3TCabE009a"), ("L", "A0000K0AB00N00A1"), ("L", "D000012345670099"), ("L", "B0000zzzzzzz00zz")]
     return pool
 
 
@@ -88,6 +92,10 @@ def run(ctx):
             for edit in (pool["set_field"][0], pool["set_field"][3], pool["set_field"][6], pool["set_block"][0], pool["del_block"][0], pool["wrap"][0], pool["load_fail"][0]):
                 seqs.append((kbpk, [x, edit, x, ("S",)]))
                 seqs.append((kbpk, [x, edit, edit, x, pool["wrap"][0]]))
+        for x in pool["load_classes"]:
+            for y in pool["load_classes"]:
+                if x != y:
+                    seqs.append((kbpk, [x, y, ("S",)]))
         # the KBPK replaced (by another key of the same length) between two unwraps / wraps of every version
         other = rng.randbytes(len(kbpk))
         for vv in "ABCD":
